@@ -1280,8 +1280,8 @@ wait:
 				}
 			}
 		}
-		if time.Since(start) > 300*time.Second {
-			r.Inconclusive(fmt.Sprintf("C29 semaphore free-running epoch %d/%d (%s) did not finish in 300 s", w.Index, idx, kind))
+		if time.Since(start) > 150*time.Second {
+			r.Inconclusive(fmt.Sprintf("C29 semaphore free-running epoch %d/%d (%s) did not finish in 150 s", w.Index, idx, kind))
 			abandoned = true
 			break wait
 		}
